@@ -87,3 +87,19 @@ Print Assumptions C01_station_phantom_is_selection.
 Theorem C01_station_never_panics : forall lv secret cfg f t wire, station lv secret cfg f t wire <> Panic.
 Proof. exact station_never_panics. Qed.
 Print Assumptions C01_station_never_panics.
+
+(* one message, several families (parseRegMessage): the registration of a family is the
+   derivation for that family from the secret alone, whatever the other families and their order *)
+Theorem C01_twin_independent :
+  forall lv secret cfg pre post f t wire,
+    nth_error (station_message hmac_sha256 alfg alfg_seed alfg_int63 isort_groups lv secret cfg (pre ++ f :: post) t wire) (length pre)
+    = Some (station lv secret cfg f t wire).
+Proof. exact (twin_independent hmac_sha256 alfg alfg_seed alfg_int63 isort_groups). Qed.
+Print Assumptions C01_twin_independent.
+
+(* ... and all of them carry the same identification secret (tag / obfs4 key material) *)
+Theorem C01_twins_share_ident :
+  forall lv secret cfg f1 f2 t wire d1 d2,
+    station lv secret cfg f1 t wire = Ok d1 -> station lv secret cfg f2 t wire = Ok d2 -> d_ident d1 = d_ident d2.
+Proof. exact (twins_share_ident hmac_sha256 alfg alfg_seed alfg_int63 isort_groups). Qed.
+Print Assumptions C01_twins_share_ident.
